@@ -637,6 +637,36 @@ def rule_typed_array_reads_through_buffer(ctx, rep, rid: str) -> None:
     rep.ok(rid, "typed-array-mirror", {"reads_examined": n})
 
 
+def _is_buffer_identity(e: ast.AST) -> bool:
+    return isinstance(e, ast.Compare) and len(e.ops) == 1 and isinstance(e.ops[0], ast.Is) and isinstance(e.left, ast.Attribute) and e.left.attr == "_buffer" and isinstance(e.comparators[0], ast.Attribute) and e.comparators[0].attr == "_buffer"
+
+
+def _materialised_when_shared(f: Func, gname: str) -> bool:
+    """`gname = list(gname)` under a condition that is exactly "the source is a view of the receiver's buffer" (the
+    identity of the two buffers, directly or as the final result of a local helper whose earlier exits only say
+    "shares nothing"), with no narrower condition and-ed to it."""
+    for a in f.own_nodes():
+        if not (isinstance(a, ast.Assign) and any(isinstance(t, ast.Name) and t.id == gname for t in a.targets) and isinstance(a.value, ast.Call) and norm(a.value.func) in ("list", "tuple") and a.value.args and norm(a.value.args[0]) == gname):
+            continue
+        p = getattr(a, "_parent", None)
+        if not isinstance(p, ast.If) or a not in p.body:
+            continue
+        t = p.test
+        if _is_buffer_identity(t):
+            return True
+        if isinstance(t, ast.Call) and isinstance(t.func, ast.Name):
+            h = None
+            g = f
+            while g is not None and h is None:
+                h = g.children.get(t.func.id)
+                g = g.parent
+            if h is not None and not isinstance(h.node, ast.Lambda):
+                rets = [r for r in h.own_nodes() if isinstance(r, ast.Return) and r.value is not None]
+                if rets and _is_buffer_identity(rets[-1].value) and all(isinstance(r.value, ast.Constant) and r.value.value is False for r in rets[:-1]):
+                    return True
+    return False
+
+
 def rule_no_read_after_write_between_views(ctx, rep, rid: str) -> None:
     """A typed-array native that copies from a script-supplied typed array into its receiver must not interleave the
     reads with the writes: the source can be a view over the receiver's buffer, and an element written early is then
@@ -644,9 +674,10 @@ def rule_no_read_after_write_between_views(ctx, rep, rid: str) -> None:
     rep.rule(rid, "a typed-array native that copies elements from another (script-supplied) array into the receiver reads all source elements before the first write: no loop both writes the receiver and reads the source", floor=1)
     n = 0
     for f in ctx.tree.funcs:
-        if isinstance(f.node, ast.Lambda) or not any(g.name == "_make_typed_array_method" for g in _ancestors(f)):
+        fam_ta = ctx.facts.family_methods().get("_make_typed_array_method", "_make_typed_array_method")
+        if isinstance(f.node, ast.Lambda) or not any(g.name in ("_make_typed_array_method", fam_ta) for g in _ancestors(f)):
             continue
-        fac = next(g for g in _ancestors(f) if g.name == "_make_typed_array_method")
+        fac = next(g for g in _ancestors(f) if g.name in ("_make_typed_array_method", fam_ta))
         ps = [p for p in fac.params() if p not in ("self", "method")]
         recv = ps[0] if ps else "arr"
         for loop in f.own_nodes():
@@ -656,6 +687,17 @@ def rule_no_read_after_write_between_views(ctx, rep, rid: str) -> None:
             reads = [c for c in ast.walk(loop) if isinstance(c, ast.Call) and isinstance(c.func, ast.Attribute) and c.func.attr == "get_index" and norm(c.func.value) != recv and any(c is x for b in loop.body for x in ast.walk(b))]
             if not writes:
                 continue
+            # source values produced lazily (a generator the loop consumes) are read inside the loop as well
+            if isinstance(loop, ast.For):
+                consumed = {x.id for x in ast.walk(loop.iter) if isinstance(x, ast.Name)}
+                for a in f.own_nodes():
+                    if isinstance(a, ast.Assign) and any(isinstance(t, ast.Name) and t.id in consumed for t in a.targets) and isinstance(a.value, ast.GeneratorExp):
+                        gname = next(t.id for t in a.targets if isinstance(t, ast.Name) and t.id in consumed)
+                        if _materialised_when_shared(f, gname):
+                            continue  # the lazy form is kept only for sources that share no memory with the receiver
+                        reads += [c for c in ast.walk(a.value) if isinstance(c, ast.Call) and isinstance(c.func, ast.Attribute) and c.func.attr == "get_index" and norm(c.func.value) != recv]
+                if isinstance(loop.iter, ast.GeneratorExp) or any(isinstance(x, ast.GeneratorExp) for x in ast.walk(loop.iter)):
+                    reads += [c for c in ast.walk(loop.iter) if isinstance(c, ast.Call) and isinstance(c.func, ast.Attribute) and c.func.attr == "get_index" and norm(c.func.value) != recv]
             n += 1
             key = f"{f.qual}:copy-loop@{short(loop.target if isinstance(loop, ast.For) else loop.test, 20)}"
             if reads:
@@ -678,7 +720,7 @@ def rule_array_elements_to_text(ctx, rep, rid: str) -> None:
         if isinstance(f.node, ast.Lambda):
             continue
         anc = [g.name for g in _ancestors(f)]
-        if not any(a in ("_make_array_method", "_create_array_constructor") for a in anc):
+        if not any(a in (ctx.facts.family_methods()["_make_array_method"], "_make_array_method", "_create_array_constructor") for a in anc):
             continue
         if f.node.args.vararg is not None:
             continue  # the natives themselves convert ARGUMENTS; elements reach the helpers below
